@@ -111,12 +111,8 @@ RefRgbToXyz(sp, wp) == RefRgbToXyzOf(Primaries(sp), WP(wp))
    Both pages publish the inverse matrix as well, to seven decimals: ConeInvPublished. *)
 MethodNames == << "bradford", "vonkries", "xyzscaling" >>
 Cone(m) ==
-  CASE m = "bradford" -> << D4(8951),  D4(2664),  D4(-1614),
-                            D4(-7502), D4(17135), D4(367),
-                            D4(389),   D4(-685),  D4(10296) >>
-    [] m = "vonkries" -> << D5(40024),  D5(70760),  D5(-8081),
-                            D5(-22630), D5(116532), D5(4570),
-                            FxZero,     FxZero,     D5(91822) >>
+  CASE m = "bradford" -> ConeBradford         \* ColourMath.tla (shared with the Xyz <-> Lms edges of C02)
+    [] m = "vonkries" -> ConeVonKries
     [] m = "xyzscaling" -> I3
 ConeInvPublished(m) ==
   CASE m = "bradford" -> << FxDec(1, 0, <<9869, 9290>>),  FxDec(-1, 0, <<1470, 5430>>), FxDec(1, 0, <<1599, 6270>>),
